@@ -87,6 +87,12 @@ struct Emitter {
     return os.str();
   }
 
+  std::string clsName(const CXXRecordDecl *RD) {
+    if (isa<ClassTemplateSpecializationDecl>(RD) && !RD->isDependentContext())
+      return ty(Ctx.getTypeDeclType(RD));
+    return qname(RD);
+  }
+
   std::string targs(const FunctionDecl *F) {
     std::string s;
     if (auto *TA = F->getTemplateSpecializationArgs()) {
@@ -150,7 +156,7 @@ struct Emitter {
         J.attribute("virtual", M->isVirtual());
         J.attribute("const", M->isConst());
         J.attribute("static", M->isStatic());
-        J.attribute("cls", qname(M->getParent()));
+        J.attribute("cls", clsName(M->getParent()));
       }
       J.attribute("ret", ty(FD->getReturnType()));
       J.attribute("inrepo", underRoot(FD->getLocation()));
@@ -437,7 +443,7 @@ struct Emitter {
         }
       });
       if (auto *M = dyn_cast<CXXMethodDecl>(FD)) {
-        J.attribute("cls", qname(M->getParent()));
+        J.attribute("cls", clsName(M->getParent()));
         J.attribute("access", (int)M->getAccess());
         J.attribute("virtual", M->isVirtual());
         J.attribute("const", M->isConst());
@@ -479,9 +485,11 @@ struct Emitter {
 
   void emitClass(const CXXRecordDecl *RD) {
     J.object([&] {
-      J.attribute("qname", qname(RD));
-      J.attribute("file", fileOf(RD->getLocation()));
-      J.attribute("line", lineOf(RD->getLocation()));
+      J.attribute("qname", clsName(RD));
+      SourceLocation CL = RD->getLocation();
+      if (auto *SD = dyn_cast<ClassTemplateSpecializationDecl>(RD)) CL = SD->getSpecializedTemplate()->getLocation();
+      J.attribute("file", fileOf(CL));
+      J.attribute("line", lineOf(CL));
       J.attribute("dependent", RD->isDependentContext());
       J.attribute("abstract", RD->isAbstract());
       J.attributeArray("bases", [&] {
@@ -549,7 +557,9 @@ public:
   bool VisitCXXRecordDecl(CXXRecordDecl *RD) {
     if (!RD->isThisDeclarationADefinition()) return true;
     if (RD->isLambda()) return true;
-    if (!E.underRoot(RD->getLocation())) return true;
+    SourceLocation L = RD->getLocation();
+    if (auto *SD = dyn_cast<ClassTemplateSpecializationDecl>(RD)) L = SD->getSpecializedTemplate()->getLocation();
+    if (!E.underRoot(L)) return true;
     if (!seen.insert(RD).second) return true;
     classes.push_back(RD);
     return true;
@@ -588,7 +598,7 @@ public:
               J.attribute("static", isa<CXXMethodDecl>(FD) && cast<CXXMethodDecl>(FD)->isStatic());
               J.attribute("is_method", isa<CXXMethodDecl>(FD));
               if (auto *M = dyn_cast<CXXMethodDecl>(FD)) {
-                J.attribute("cls", E.qname(M->getParent()));
+                J.attribute("cls", E.clsName(M->getParent()));
                 J.attribute("access", (int)M->getAccess());
                 J.attribute("cls_is_template", M->getParent()->isDependentContext());
                 J.attribute("const", M->isConst());
